@@ -97,6 +97,23 @@ type Sched struct {
 	Accesses int
 
 	Probes map[string]int
+
+	// OnTaskPanic is called (on the panicking task's goroutine, after the
+	// panic was recorded) when a task dies of a panic.
+	OnTaskPanic func(t *Task)
+	// AtStep runs fn on the scheduler goroutine right before step k is
+	// chosen (all tasks are parked or blocked at that point).
+	atStep map[int][]func()
+}
+
+// AtStep registers fn to run at a quiescent point just before step k.
+func (s *Sched) AtStep(k int, fn func()) {
+	s.mu.Lock()
+	if s.atStep == nil {
+		s.atStep = map[int][]func(){}
+	}
+	s.atStep[k] = append(s.atStep[k], fn)
+	s.mu.Unlock()
 }
 
 var cur atomic.Pointer[Sched]
@@ -278,6 +295,14 @@ func (s *Sched) Run() {
 				alive++
 				t.lostBaton = true
 			}
+		}
+		if fns := s.atStep[s.Steps+1]; len(fns) > 0 {
+			delete(s.atStep, s.Steps+1)
+			s.mu.Unlock()
+			for _, fn := range fns {
+				fn()
+			}
+			continue
 		}
 		if s.finished.Load() {
 			s.End = EndFinished
@@ -585,7 +610,11 @@ func Exit(t *Task) {
 		t.PanicVal = r
 		t.PanicText = fmt.Sprint(r) + "\n" + trimStack(string(debug.Stack()))
 	}
+	cb := s.OnTaskPanic
 	s.mu.Unlock()
+	if r != nil && cb != nil {
+		cb(t)
+	}
 	s.signal()
 }
 
